@@ -30,7 +30,7 @@ SYM = {'add': '+', 'sub': '-', 'mul': '*', 'div': 'div', 'idiv': 'idiv', 'mod': 
 UN = ['neg', 'pos', 'abs', 'floor', 'ceiling', 'round1', 'round', 'rhe']
 FN = {'abs': 'abs', 'floor': 'floor', 'ceiling': 'ceiling', 'round1': 'round', 'round': 'round',
       'rhe': 'round-half-to-even'}
-FINDING_IDS = ('F06c', 'F06t', 'F06x', 'F06p')
+FINDING_IDS = ('F06c', 'F06t', 'F06x', 'F06p', 'F06v', 'F06s')
 SPECIALS = ('NaN', 'INF', '-INF', '0', '-0')
 F32_MAX = 3.4028234663852886e38
 
@@ -71,6 +71,8 @@ def proto(val) -> str:
         return f'i:{val[1]}'
     if val[0] == 'd':
         return f'd:{val[1]}:{val[2]}'
+    if val[0] == 'S':
+        return 'S:' + '.'.join(str(ord(c)) for c in val[1])
     x = val[1]
     return f'{val[0]}:{x.numerator}/{x.denominator}' if isinstance(x, Fr) else f'{val[0]}:{x}'
 
@@ -85,6 +87,14 @@ def lit(val, ver: str, style: int) -> str:
     """XPath source text of an operand.  style 0 = constructor, 1 = literal where one exists"""
     t = val[0]
     if ver == '10':
+        if t == 'S':
+            assert "'" not in val[1]
+            return "'" + val[1] + "'"
+        if t == 'i':
+            return str(val[1])                       # '-5' is the unary minus of the literal 5: same value
+        if t == 'd':
+            s = dec_str(val[1], val[2])
+            return s if '.' in s else s + '.0'
         assert t == 'D'
         x = val[1]
         s = x if not isinstance(x, Fr) else repr(to_float(x))
@@ -136,6 +146,8 @@ def val_of_proto(s: str):
     if t == 'd':
         n, sc = rest.split(':')
         return ('d', int(n), int(sc))
+    if t == 'S':
+        return ('S', ''.join(chr(int(c)) for c in rest.split('.')) if rest else '')
     return (t, rest if rest in SPECIALS else Fr(rest))
 
 
@@ -164,10 +176,43 @@ def canon(r) -> str:
     return 'OTHER:' + type(r).__name__
 
 
-def run_impl(case) -> str:
+def num10(c: str) -> str:
+    """XPath 1.0 has one numeric type: drop the type tag, keep the exact value (an exact zero is +0)"""
+    if c[:2] in ('i:', 'd:', 'D:', 'F:'):
+        v = c[2:]
+        if c[0] == 'i':
+            v = v + '/1'
+        if c[0] in 'id' and v.startswith('0/'):
+            v = '0'
+        return 'N:' + v
+    return c
+
+
+_shared_parsers = {}
+
+
+def run_impl(case, variant: int = 0) -> str:
+    """variant 0: elementpath.select (a fresh parser per call);  variant 1: one long-lived parser instance per
+    version, the token tree evaluated twice with fresh contexts (state carried between calls would show);
+    variant 2: Selector object, select() called twice"""
     import elementpath
     try:
-        return canon(elementpath.select(None, expr_of(case), parser=parser_of(case['v']), item=1))
+        expr = expr_of(case)
+        if variant == 1:
+            cls = parser_of(case['v'])
+            prs = _shared_parsers.setdefault(case['v'], cls())
+            token = prs.parse(expr)
+            first = canon(token.evaluate(elementpath.XPathContext(root=None, item=1)))
+            second = canon(token.evaluate(elementpath.XPathContext(root=None, item=1)))
+            r = first if first == second else f'UNSTABLE:{first}|{second}'
+        elif variant == 2:
+            sel = elementpath.Selector(expr, parser=parser_of(case['v']))
+            first = canon(sel.select(None, item=1))
+            second = canon(sel.select(None, item=1))
+            r = first if first == second else f'UNSTABLE:{first}|{second}'
+        else:
+            r = canon(elementpath.select(None, expr, parser=parser_of(case['v']), item=1))
+        return num10(r) if case['v'] == '10' else r
     except elementpath.ElementPathError as e:
         code = (getattr(e, 'code', None) or 'NOCODE').split(':')[-1]
         return 'ERR:' + code
@@ -245,12 +290,39 @@ def gen_dbl(rng, tag: str, specials=0.12):
     return dbl_val(tag, x)
 
 
+STR_WS = [' ', '\t', '\n', '\r', '  ', ' \t']
+STR_WS_PY = ['\x0b', '\x0c', '\x85', '\u2003', '\x1f', '\u3000']      # white space for Python's \\s only
+STR_JUNK = ['', ' ', 'abc', '1 2', '--1', '1.2.3', '.', '-', '+', '-.', 'e5', '1e', '1e+', '0x10', '1_0', 'INF', '-INF',
+            '+INF', 'NaN', 'inf', 'nan', 'Infinity', '1,5', '\xa03', '3\xa0', '1e3', '1E2', '1.e2', '+3', '+.5', '-1e-3',
+            '1e400', '-1e-400', '٣', '1.5e0', '00', '-0', '-0.0', '0.0', '.0', '0.', '-00012.50']
+
+
+def gen_str(rng):
+    r = rng.random()
+    if r < 0.3:
+        return ('S', rng.choice(STR_JUNK))
+    sign = rng.choice(['', '', '-', '-', '+'] if r < 0.6 else ['', '-'])
+    ip = rng.choice(['', '0', '3', '7', '12', '100', '0012', str(rng.randint(0, 10**rng.choice([3, 9, 17, 25])))])
+    fp = rng.choice(['', '', '0', '5', '25', '50', '125', '000', str(rng.randint(0, 10**6))])
+    dot = '.' if (fp or rng.random() < 0.2) else ''
+    if not ip and not fp:
+        ip = '1'
+    body = sign + ip + dot + fp
+    if r < 0.45:
+        body += rng.choice(['e', 'E']) + rng.choice(['', '+', '-']) + str(rng.randint(0, 30))
+    lead = rng.choice([''] * 4 + STR_WS + (STR_WS_PY if rng.random() < 0.3 else []))
+    trail = rng.choice([''] * 4 + STR_WS + (STR_WS_PY if rng.random() < 0.3 else []))
+    return ('S', lead + body + trail)
+
+
 def gen_val(rng, tags='idDF'):
     t = rng.choice(tags)
     if t == 'i':
         return ('i', gen_int(rng))
     if t == 'd':
         return gen_dec(rng)
+    if t == 'S':
+        return gen_str(rng)
     return gen_dbl(rng, t)
 
 
@@ -289,8 +361,8 @@ def gen_case(rng, ver=None):
     ver = ver or rng.choice(['10', '20', '20', '30', '31', '31'])
     style = 1 if rng.random() < 0.25 else 0
     if ver == '10':
-        tags = 'D'
-        ops = ['add', 'sub', 'mul', 'div', 'mod', 'neg', 'floor', 'ceiling', 'round1']
+        tags = rng.choice(['D', 'D', 'DS', 'S', 'iD', 'id', 'idDS', 'iS', 'dS'])
+        ops = ['add', 'sub', 'mul', 'div', 'mod', 'add', 'sub', 'mul', 'div', 'mod', 'neg', 'floor', 'ceiling', 'round1']
     else:
         tags = rng.choice(['idDF', 'id', 'id', 'iD', 'dD', 'D', 'F', 'iF', 'dF', 'DF'])
         ops = BIN * 2 + UN
@@ -302,7 +374,7 @@ def gen_case(rng, ver=None):
     b = None
     p = None
     if op in BIN:
-        if rng.random() < 0.4:
+        if rng.random() < 0.4 and 'S' not in tags:
             a, b = gen_related_pair(rng, tags)
         else:
             a, b = gen_val(rng, tags), gen_val(rng, tags)
@@ -318,6 +390,12 @@ def gen_case(rng, ver=None):
                 p = rng.randint(-3, 3)
             else:
                 p = rng.choice([-30, -6, 5, 9, 17, 26, 30, 400])
+    if ver == '10':
+        def fix10(v):
+            if v is not None and v[0] == 'd' and len(str(abs(v[1]))) > 28:
+                return ('d', v[1] % 10**20, v[2])   # '-x' is the unary minus of a literal: keep it inside the context
+            return v
+        a, b = fix10(a), fix10(b)
     for v in (a, b):            # literal style only where the literal denotes the same value
         if v is not None and ((v[0] in 'DF' and not isinstance(v[1], Fr)) or v[0] == 'F'):
             style = 0
@@ -364,6 +442,16 @@ CORPUS = [
     C('20', 'idiv', D(math.inf), ('i', 0)), C('20', 'idiv', D(math.nan), ('i', 0)), C('20', 'idiv', D(1.0), D(0.0)),
     C('20', 'idiv', ('i', 5), D(-math.inf)), C('20', 'mul', D(1e300), D(1e300)), C('20', 'mul', F(1e30), F(1e30)),
     C('20', 'add', ('i', 10**22 + 1), D(1.0)), C('20', 'sub', D(0.1), ('d', 1, 1)), C('20', 'add', D(-0.0), D(-0.0)),
+    C('10', 'add', ('S', '3'), ('i', 1)), C('10', 'mul', ('S', '3'), ('S', '4')), C('10', 'div', ('S', ' 3.5 '), ('S', '-.5')),
+    C('10', 'add', ('S', 'abc'), ('i', 1)), C('10', 'add', ('S', '1e3'), ('i', 0)), C('10', 'add', ('S', '+3'), ('i', 0)),
+    C('10', 'add', ('S', 'INF'), ('i', 1)), C('10', 'mul', ('S', '-0'), ('i', 1)), C('10', 'add', ('S', '\u20033'), ('i', 1)),
+    C('10', 'div', ('i', 1), ('i', 3)), C('10', 'add', ('d', 1, 1), ('d', 2, 1)), C('10', 'mod', ('i', 5), ('i', 0)),  # F06v
+    C('10', 'div', ('i', 5), ('i', 0)), C('10', 'div', ('i', -5), ('i', 0)), C('10', 'add', ('i', 10**22 + 1), ('i', 0)),
+    C('10', 'floor', ('S', '3.7')), C('10', 'round1', ('S', '2.5')), C('10', 'neg', ('S', '3')), C('10', 'floor', ('i', 7)),
+    C('10', 'ceiling', ('d', 32, 1)), C('10', 'neg', ('i', 10**22 + 1)),
+    C('20', 'div', ('d', 1, 0), ('i', 3)), C('20', 'mul', ('d', 10**21 + 1, 0), ('d', 12345678901, 3)),     # decimal context
+    C('20', 'add', ('d', 10**28 + 5, 0), ('d', 5, 1)), C('20', 'sub', ('i', 10**30 + 15), ('d', 5, 1)),
+    C('20', 'neg', ('d', 10**28 + 5, 0)), C('20', 'mod', ('d', 10**29 + 7, 0), ('d', 3, 0)),
     C('20', 'sub', D(0.0), D(0.0)), C('20', 'mul', D(-0.0), ('i', 5)), C('20', 'mul', ('d', 15, 1), ('i', 2 ** 63 - 1)),
 ]
 
@@ -372,7 +460,7 @@ CORPUS = [
 def parse_answer(ans: str):
     d = dict(kv.split('=', 1) for kv in ans.split(' '))
     flags = [] if d['flags'] == '_' else d['flags'].split(',')
-    return d['model'], d['spec'], flags
+    return d['model'], d['spec'], (None if d.get('specI', '_') == '_' else d['specI']), flags
 
 
 def compare(run: Run, cases: list, stats=True) -> None:
@@ -384,9 +472,21 @@ def compare(run: Run, cases: list, stats=True) -> None:
         if ans.startswith('bad-'):
             run.disagree(Disagreement(cj, 'driver:' + ans, what='protocol'))
             continue
-        model, spec, flags = parse_answer(ans)
-        impl = run_impl(case)
+        model, spec, spec_i, flags = parse_answer(ans)
+        variant = (__import__("zlib").crc32(line.encode()) % 8) if stats else 0
+        variant = variant if variant in (1, 2) else 0
+        impl = run_impl(case, variant)
+        if stats:
+            st.count(f'api:{("select", "shared-parser-token-twice", "Selector-twice")[variant]}')
         tags = [f for f in flags if f in FINDING_IDS]
+        if 'F06c' in tags and spec_i is not None and impl != spec_i and impl != spec and 'F06t' not in tags \
+                and 'F06p' not in tags:
+            # F06c covers the *rounding* of xs:float only: the result must still be the F&O result computed
+            # with binary64 rounding + clamp (theorem float_ops_eq_spec_up_to_rounding); otherwise it is a
+            # dispatch/type defect and must be reported
+            tags.remove('F06c')
+            if stats:
+                st.count('F06c-tag-refused')
         types = case['a'][0] + (case['b'][0] if case['b'] else '')
         if stats:
             st.case(cj, nontrivial=True)
@@ -399,7 +499,7 @@ def compare(run: Run, cases: list, stats=True) -> None:
             if case['op'] in ('idiv', 'mod') and case['b'] and not impl.startswith('ERR'):
                 def sg(v):
                     x = v[1]
-                    return '?' if not isinstance(x, (int, Fr)) else '-' if x < 0 else '+' if x > 0 else '0'
+                    return '?' if (v[0] == 'S' or not isinstance(x, (int, Fr))) else '-' if x < 0 else '+' if x > 0 else '0'
                 st.count(f"signs:{case['op']}:{sg(case['a'])}{sg(case['b'])}")
         site = f"{case['op']}@{case['v']}:{types}"
         if 'big' in flags:
@@ -443,6 +543,15 @@ def grid_cases(vers=('20', '31'), small=False):
             for b in bs:
                 for op in BIN:
                     cases.append(C(ver, op, a, b))
+    v10vals = [('i', n) for n in range(-3, 4)] + [('d', n, 1) for n in (-15, -5, 0, 5, 15, 25)] + \
+              [('S', t) for t in ('3', '-2', ' 1.5 ', '.5', '-.5', '0', '-0', 'abc', '', '1e1', '+2', 'INF', 'NaN', '2.')] + \
+              [('D', Fr(n, 2)) for n in (-3, -1, 1, 4)] + [('D', 'INF'), ('D', '-0'), ('D', 'NaN')]
+    for a in v10vals:
+        for op in ('neg', 'floor', 'ceiling', 'round1'):
+            cases.append(C('10', op, a))
+        for b in v10vals:
+            for op in ('add', 'sub', 'mul', 'div', 'mod'):
+                cases.append(C('10', op, a, b))
     dvals = [v for v in vals if v[0] == 'D']
     for a in dvals:
         for op in ('neg', 'floor', 'ceiling', 'round1'):
@@ -456,7 +565,7 @@ def grid_cases(vers=('20', '31'), small=False):
 
 def correspond(run: Run) -> None:
     rng = run.rng
-    n = run.scale(60000, 600000)
+    n = run.scale(40000, 500000)
     cases = list(CORPUS)
     corpus_file = Path(__file__).resolve().parent.parent / 'corpus' / 'C06' / 'seeds.jsonl'
     if corpus_file.exists():
@@ -465,7 +574,7 @@ def correspond(run: Run) -> None:
                 cases.append(case_of_json(json.loads(ln)))
     grid = grid_cases(small=True)
     if run.quick:
-        grid = rng.sample(grid, min(len(grid), 6000))
+        grid = rng.sample(grid, min(len(grid), 4000))
     cases += grid
     cases += [gen_case(rng) for _ in range(n)]
     run.stats.rule = (
@@ -478,6 +587,7 @@ def correspond(run: Run) -> None:
         'syntax; plus the seed corpus and (a sample of) the exhaustive small grid. distinct = distinct request lines')
     for i in range(0, len(cases), 5000):
         compare(run, cases[i:i + 5000])
+    run.log(f'correspondence done: {len(cases)} cases')
 
 
 def search(run: Run):
@@ -496,6 +606,9 @@ def simpler(val):
         return []
     t = val[0]
     out = []
+    if t == 'S':
+        x = val[1]
+        return [('S', c) for c in (x.strip(), x[:-1], x[1:], '1', '1e0', '+1') if c != x and len(c) <= len(x)]
     if t == 'i':
         n = val[1]
         out = [('i', k) for k in (0, 1, -1, 2, -2, 3, -3, 5, -5, 6, -6, 7, n // 2, n // 10, -n) if abs(k) < abs(n) or (k == -n and n < 0)]
